@@ -164,9 +164,39 @@ def check_term(case):
                       expected=GC.from_py(v) if len(repr(v)) < 200 else None)
     back = guarded("deserialize_problem", ps.deserialize_problem, term, again[1], height=H, width=W)
     if back != ("value", v):
+        if tupl_drops_surplus(case["term"], v, ps.CombinatorEnv(height=H, width=W)):
+            # known finding (known_findings.json): Tupl.serialize ignores the items of an element that
+            # the element's combinator does not consume, so a decoded value is re-encoded lossily
+            raise Failure("tupl-element-surplus-items-dropped-on-serialize",
+                          observed=dict(canonical=again[1][:80], back=repr(back)[:100]), expected=repr(v)[:100])
         raise Failure("canonical-text-decodes-differently|term:" + case["term"][0],
                       observed=dict(canonical=again[1][:80], back=repr(back)[:100]))
     return "problem"
+
+
+def tupl_drops_surplus(t, v, env):
+    """does serializing value v with term t silently drop items of some Tupl element?"""
+    k = t[0]
+    try:
+        if k == "Tupl" and isinstance(v, tuple) and len(v) == len(t[1]):
+            for et, part in zip(t[1], v):
+                if et[0] in ("Tupl", "Seq", "Grid", "Rooms", "ValuedRooms"):
+                    if isinstance(part, list) and part and tupl_drops_surplus(et, part[0], env):
+                        return True
+                    if isinstance(part, list) and len(part) > 1:
+                        return True
+                elif isinstance(part, list) and len(part) > 1:
+                    res = GC.build_term(et).serialize(env, part, 0)
+                    if res is not None and res[0] < len(part):
+                        return True
+        elif k in ("Seq",) and isinstance(v, list):
+            return any(tupl_drops_surplus(t[1], x, env) for x in v if isinstance(x, tuple))
+        elif k == "Grid" and isinstance(v, list):
+            return any(tupl_drops_surplus(t[1], x, env) for r in v if isinstance(r, list) for x in r
+                       if isinstance(x, tuple))
+    except Exception:
+        return False
+    return False
 
 
 def body(case):
@@ -425,6 +455,14 @@ def run(ctx):
     ctx.assumptions = ["compass.parse_puzz_link_url is not a deserialize_* function and is not named by the property",
                        "workers run under a 2 GiB address-space cap; MemoryError on inputs of < 500 characters counts as a crash",
                        "recursion limit left at Python's default 1000"]
+    # seconds-long regression tier: the recorded input of every listed known finding
+    for sig, e in sorted(ctx.known_open.items()):
+        if "replay" in e:
+            try:
+                body(e["replay"])
+            except Failure as f:
+                ctx.stats.fail(f, e["replay"], "c17.known-finding-replay")
+            ctx.stats.case(canon=e["replay"], nontrivial=True, classes=["known-finding-replay"])
     k, n = (8, 1500) if ctx.quick() else (16, 30000)
     for r in pmap(shard, [(ctx.seed * 1000 + i, n) for i in range(k)]):
         ctx.stats.merge(r)
